@@ -303,9 +303,8 @@ def oracle_send(inp):
     return 'datagram %s differs from %s' % (dg.hex(), want.hex())
 
 
-def oracle_recv(inp):
-    d, q = bytes.fromhex(inp['dgram']), inp['quirk']
-    code, data = impl_recv(q, d)
+def judge_recv(d, q, code, data):
+    """verdict on what came out of a received datagram d under length-check-disabled = q"""
     verdict, arg = spec_parse(d)
     if verdict == 'ok':
         if len(arg) == 0:
@@ -317,6 +316,114 @@ def oracle_recv(inp):
         return None         # the caller disabled the length check
     if code == 0:
         return 'accepted (-> %s) although: %s' % (data.hex(), arg)
+    return None
+
+
+def oracle_recv(inp):
+    d, q = bytes.fromhex(inp['dgram']), inp['quirk']
+    code, data = impl_recv(q, d)
+    return judge_recv(d, q, code, data)
+
+
+# ---- histories: several objects / several calls in ONE process -------------------------
+def quirk_seq_steps(calls):
+    """Run a history of object creations and receptions; yields (index, call, kind, own setting,
+    code, data) for every reception.  calls:
+      ['rmcp', id, q]  Rmcp() if q is None else Rmcp(quirks_cfg={'rmcp_ignore_sdu_length': q})
+      ['msg', id, q]   IpmiMsg() if q is None else IpmiMsg(ignore_sdu_length=q)
+      ['recv', id, datagram hex]   (calls naming an object that does not exist are skipped)"""
+    rmcp = _rmcp()
+    objs = {}
+    for n, c in enumerate(calls):
+        if c[0] == 'rmcp':
+            r = rmcp.Rmcp() if c[2] is None else rmcp.Rmcp(quirks_cfg={'rmcp_ignore_sdu_length': c[2]})
+            r._sock = FakeSock()
+            r.host, r.port = 'bmc', 623
+            objs[c[1]] = ('rmcp', r, bool(c[2]))
+        elif c[0] == 'msg':
+            m = rmcp.IpmiMsg() if c[2] is None else rmcp.IpmiMsg(ignore_sdu_length=c[2])
+            objs[c[1]] = ('msg', m, bool(c[2]))
+        elif c[0] == 'recv' and c[1] in objs:
+            kind, o, q = objs[c[1]]
+            d = bytes.fromhex(c[2])
+            if kind == 'rmcp':
+                o._sock.rx = [d]
+                # as Rmcp._send_and_receive calls it
+                code, data = attempt(lambda: bytes(o._receive_ipmi_msg(o.ignore_sdu_length)))
+            else:
+                code, data = attempt(lambda: bytes(o.unpack(d[4:]) or b''))
+            yield n, c, kind, q, code, data
+
+
+def oracle_quirk_seq(inp):
+    """every object behaves per ITS OWN length-check setting, whatever was created before"""
+    for n, c, kind, q, code, data in quirk_seq_steps(inp['calls']):
+        d = bytes.fromhex(c[2])
+        if kind == 'msg' and (len(d) < 4 or d[0] != 6 or d[3] != 7):
+            continue        # IpmiMsg.unpack alone does not see the RMCP header
+        msg = judge_recv(d, q, code, data if data is not None else b'')
+        if msg:
+            return 'call %d of the history: %s object %r created with ignore_sdu_length=%s: %s' % (n, kind, c[1], q, msg)
+    return None
+
+
+def pack_seq_steps(calls):
+    """One Rmcp behind a recording socket and several Session objects that are modified between
+    datagrams.  Yields (index, call, shadow state used for this datagram, code, datagram, seq after,
+    md5 inputs).  calls:
+      ['new', id]                      Session()
+      ['user', id, user, pw]           session.set_auth_type_user(user, pw)   (pw 'str:..' / 'hex:..')
+      ['attr', id, name, value]        setattr(session, name, value) for auth_type / sid / sequence_number / activated
+      ['send', id, payload hex]        Rmcp._session = session; Rmcp._send_ipmi_msg(payload)"""
+    from pyipmi.session import Session
+    r = new_itf(None)
+    objs = {}
+    for n, c in enumerate(calls):
+        if c[0] == 'new':
+            objs[c[1]] = (Session(), {'auth': 0, 'sid': 0, 'seq': 0, 'act': False, 'pw': None})
+        elif c[1] not in objs:
+            continue
+        elif c[0] == 'user':
+            s, sh = objs[c[1]]
+            s.set_auth_type_user(c[2], pw_value(c[3]))
+            sh['auth'], sh['pw'] = 4, c[3]
+        elif c[0] == 'attr':
+            s, sh = objs[c[1]]
+            setattr(s, c[2], c[3])
+            sh[{'auth_type': 'auth', 'sid': 'sid', 'sequence_number': 'seq', 'activated': 'act'}[c[2]]] = c[3]
+        elif c[0] == 'send':
+            s, sh = objs[c[1]]
+            r._session = s
+            r._sock.sent = []
+            st = dict(sh)
+            with md5_recorded() as rec:
+                code, _ = attempt(lambda: r._send_ipmi_msg(bytes.fromhex(c[2])))
+            if sh['act']:
+                sh['seq'] = spec_next_seq(sh['seq'])
+            yield n, c, st, code, (r._sock.sent[0] if r._sock.sent else None), s.sequence_number, rec.calls
+
+
+def oracle_pack_seq(inp):
+    """every datagram is the specified one for the values the Session holds at that moment"""
+    for n, c, st, code, dg, seq_after, _ in pack_seq_steps(inp['calls']):
+        data = bytes.fromhex(c[2])
+        pwb = pw_bytes(st['pw'])
+        if st['auth'] not in (0, 2, 4) or (st['auth'] != 0 and (pwb is None or len(pwb) > 16)) or len(data) > 255:
+            continue        # outside the property's quantifier (e.g. a shrunk history without the password)
+        if code != 0 or dg is None:
+            return 'call %d of the history: no datagram sent (exception class %d)' % (n, code)
+        seq = spec_next_seq(st['seq']) if st['act'] else st['seq']
+        pw = pw_bytes(st['pw']) or b''
+        want = spec_datagram(st['auth'], seq, st['sid'], pw, data)
+        if seq_after != seq:
+            return 'call %d of the history: session sequence number afterwards %#x, expected %#x' % (n, seq_after, seq)
+        if dg != want:
+            extra = ''
+            if st['auth'] == 2 and dg[:13] == want[:13] and dg[29:] == want[29:]:
+                extra = ' (only the MD5 code differs: it is not the digest of current password, id, payload, number, ' \
+                        'current password)'
+            return 'call %d of the history: datagram %s, specified %s for type %d, id %#x, number %#x, password %r%s' % (
+                n, dg.hex(), want.hex(), st['auth'], st['sid'], seq, pw, extra)
     return None
 
 
@@ -342,7 +449,8 @@ def oracle_pong(inp):
     return None
 
 
-ORACLES = {'send': oracle_send, 'recv': oracle_recv, 'ping': oracle_ping, 'pong': oracle_pong}
+ORACLES = {'send': oracle_send, 'recv': oracle_recv, 'ping': oracle_ping, 'pong': oracle_pong,
+           'quirk_seq': oracle_quirk_seq, 'pack_seq': oracle_pack_seq}
 
 
 def replay(data):
@@ -542,6 +650,86 @@ def run(ctx):
     pong_case(spec_pong(oem_iana=4542, oem_def=1), 'asf-oem-defined-nonzero', 'reject-structure')
     pong_case(spec_pong(interactions=0x80), 'interactions-nonzero', 'reject-structure')
 
+    # ---- histories in one process (the model is stateless per call / object: any dependence of
+    # the implementation on what happened before shows up as a difference at some step)
+    def history(oname, calls, key, steps_terms):
+        steps_terms(calls)
+        res.evaluations += 1
+        msg = ORACLES[oname]({'calls': calls})
+        if msg and key not in fails:
+            seq = C.shrink_history('C05', oname, calls)
+            fails[key] = C.Violation(
+                key=key, what=((ORACLES[oname]({'calls': seq}) if seq else None) or msg) +
+                ' [history of %d call(s)%s]' % (len(seq or calls), '' if seq else ', not reproduced from a clean start'),
+                replay={'oracle': oname, 'input': {'calls': seq or calls}}, found_input=bool(seq))
+
+    def quirk_terms(calls):
+        for n, c, kind, qk, code, data in quirk_seq_steps(calls):
+            d = bytes.fromhex(c[2])
+            if kind == 'rmcp':
+                add('chk_recv %s %s %d %s' % (C.c_bool(qk), C.c_hex(d), code, C.c_hex(data or b'')), ('history-recv', c[1], qk, c[2]))
+            else:
+                add('chk_ipmi_unpack %s %s %d %s' % (C.c_bool(qk), C.c_hex(d[4:]), code, c_sdu(data if data else None)),
+                    ('history-unpack', c[1], qk, c[2]))
+            D.add(('hq', n, tuple(c), qk), True, 'history-quirk')
+
+    def wrong_len(d, delta):
+        hl = 4 + (10 if d[4] == 0 else 26)
+        return d[:hl - 1] + bytes([(d[hl - 1] + delta) % 256]) + d[hl:]
+
+    vsmall = [v for v in valid if 1 <= len(v) - (14 if v[4] == 0 else 30) <= 40]
+    for h in range(6 if q else 40):
+        settings = [True, None, False, None, True, False]
+        rng.shuffle(settings)
+        if h == 0:
+            settings = [True, None, None, False, None, True]      # quirk first, then default objects
+        elif h == 1:
+            settings = [None, True, None, False, True, None]
+        calls, made = [], []
+        for i, st_ in enumerate(settings):
+            kind = 'rmcp' if (h + i) % 3 != 2 else 'msg'
+            calls.append([kind, 'o%d' % i, st_])
+            made.append('o%d' % i)
+            for _ in range(rng.choice([2, 3, 4])):
+                d = rng.choice(vsmall)
+                d = rng.choice([d, wrong_len(d, 1), wrong_len(d, -2), wrong_len(d, -1), d + b'\x00', d[:-1], wrong_len(d, 3)])
+                calls.append(['recv', rng.choice(made), d.hex()])
+        history('quirk_seq', calls, 'history:length-check-setting-depends-on-other-objects', quirk_terms)
+
+    def pack_terms(calls):
+        for n, c, st, code, dg, seq2, md5calls in pack_seq_steps(calls):
+            add('chk_send %s %s 255 %s %d 255 %d %s' % (c_tab(md5calls), c_sess(st), C.c_hex(bytes.fromhex(c[2])), seq2, code,
+                                                       C.c_hex(dg or b'')), ('history-send', st, c[2]))
+            D.add(('hp', n, repr(st), c[2]), True, 'history-pack')
+
+    for h in range(8 if q else 60):
+        calls = [['new', 'a'], ['new', 'b']]
+        cur = {}
+        for sid_ in ('a', 'b'):
+            calls.append(['user', sid_, 'admin', rng.choice(okpw)])
+            cur[sid_] = 4
+        for step in range(rng.choice([8, 12, 16])):
+            sid_ = rng.choice(['a', 'a', 'b'])
+            k = rng.random()
+            if k < 0.25:
+                calls.append(['user', sid_, rng.choice(['admin', 'root', None]), rng.choice(okpw)])
+                cur[sid_] = 4
+                if rng.random() < 0.7:
+                    calls.append(['attr', sid_, 'auth_type', 2])
+                    cur[sid_] = 2
+            elif k < 0.40:
+                a = rng.choice([0, 2, 4, 2])
+                calls.append(['attr', sid_, 'auth_type', a])
+                cur[sid_] = a
+            elif k < 0.50:
+                calls.append(['attr', sid_, 'sid', rid()])
+            elif k < 0.58:
+                calls.append(['attr', sid_, 'sequence_number', rid()])
+            elif k < 0.65:
+                calls.append(['attr', sid_, 'activated', rng.random() < 0.7])
+            calls.append(['send', sid_, bytes(rng.randrange(256) for _ in range(rng.choice([1, 7, 20]))).hex()])
+        history('pack_seq', calls, 'history:datagram-depends-on-earlier-session-state', pack_terms)
+
     failing, errors = C.coq_cases('C05', 'Model.Rmcp Corr.C05', terms)
     res.mismatches = [{'case': meta[i], 'term': terms[i][:1500]} for i in failing[:50]]
     res.corr_errors = errors
@@ -552,7 +740,9 @@ def run(ctx):
                 'activated / not, passwords None / str / bytes of 0..16 (and 17, 20) bytes, unsupported types, no session, '
                 'None and over-long payloads, every RMCP sequence number; received: per valid datagram every truncation, '
                 '1..3-byte extension, every header byte altered, both quirk settings, random bytes; ASF ping, pongs valid / '
-                'truncated / extended / every byte altered. distinct = distinct canonical inputs, all non-trivial')
+                'truncated / extended / every byte altered; histories in one process: Rmcp / IpmiMsg objects with different '
+                'length-check settings created in varied order, each then receiving valid / wrong-length datagrams; sequences of '
+                'datagrams on the same Session objects with password / type / id / number / activated changed in between. distinct = distinct canonical inputs, all non-trivial')
     res.samples = [{'term': terms[i][:400], 'case': meta[i]} for i in (0, len(terms) // 3, len(terms) // 2, len(terms) - 1)]
     res.oracle_failures = list(fails.values())
     return res
